@@ -256,6 +256,10 @@ def update_forwarding(ctx):
                 bad.append(f"parameter `{p_}` receives `{norm(a) if a is not None else 'nothing'}`, expected {want}")
         if q == "TinyFlux.update_all":
             a = bound.get("query")
+            if isinstance(a, ast.Name):
+                vals_ = assignments_to(f, a.id)
+                if len(vals_) == 1:
+                    a = vals_[0]
             if a is None or not norm(a).endswith(".noop()"):
                 bad.append(f"update_all passes `{norm(a) if a is not None else 'nothing'}` as query, expected a noop query")
         yield Ob("C03.R5", ["C03", "C10"], f"{q} | forwards to {target.name}", not bad,
@@ -315,7 +319,12 @@ def validation_dominates_stores(ctx):
                                 return call_name(c) == {"tags": "validate_tags", "fields": "validate_fields"}.get(name, "")
                     return False
                 ok = norm(n.value) == val and all(g.dominated(i, is_check) for i in g.ids_of(n))
-                yield Ob("C14.R1", ["C14"], f"{st.qual} | store | {norm(n)}", ok,
+                if not ok and norm(n.value) == val:
+                    # `if isinstance(value, T): self._x = value else: raise`
+                    cl = guard_clauses(guards(n))
+                    ok = any(len(c) == 1 and next(iter(c))[1] and next(iter(c))[0].startswith(f"truthy(isinstance({val},")
+                             for c in cl)
+                yield Ob("C14.R1", ["C14", "C11"], f"{st.qual} | store | {norm(n)}", ok,
                          "type test / validator dominates the store" if ok else
                          "setter stores the value without validating it first", ctx.prog.loc(n))
     # (3) any raw slot store outside Point, and every mutation in the updater
